@@ -68,6 +68,7 @@ def gen_cases(ctx):
 
 def judge(ctx, case, res, mout):
     small = {k: case[k] for k in ('cfg', 'n', 'tail', 'table', 'fkind', 'kwargs', 'schedule', 'demand', 'label', 'k')}
+    pipelib.carry_flags(small, case)
     ev = res['events']
     ctx.case((case['cfg'], case['n'], case['k'], case['label'], case.get('schedule')), case['k'] >= 1 and case['n'] >= 2, sample=small)
     ctx.count('way:' + case['label'])
@@ -311,6 +312,36 @@ def forked_consumer(way):
     os.waitpid(pid, 0)
     return json.loads(data.decode() or '{}')
 
+class Owner:
+    # the stream and its source refer to each other through their owner: dropping the owner leaves a reference CYCLE,
+    # which only the cyclic collector can free
+    def __init__(self):
+        self.stream = f(self.src())
+
+    def src(self):
+        for i in range(50):
+            yield i
+
+def cyclic_then_next():
+    gc.collect()
+    gc.disable()
+    o = Owner()
+    next(o.stream)
+    had = len(kids())
+    del o                       # abandoned, not yet collected
+    st = f(iter(range(7)))      # the program goes on with the next parallel stream
+    assert list(st) == [i * i for i in range(7)]
+    del st
+    gc.enable()
+    gc.collect()
+    t0 = time.time()
+    left = kids()
+    while left and time.time() - t0 < 4:
+        time.sleep(0.02)
+        gc.collect()
+        left = kids()
+    return {'workers_of_the_abandoned_stream': had, 'left': left}
+
 def main():
     ways = %(ways)r
     one_stream('exhaust'); one_stream('close'); settle()
@@ -319,8 +350,9 @@ def main():
         one_stream(wy)
     settle()
     after = nfd()
-    rep = {'fd_base': base, 'fd_after': after, 'streams': len(ways), 'kids_left': kids(),
-           'forked': forked_consumer(%(forkway)r)}
+    rep = {'fd_base': base, 'fd_after': after, 'streams': len(ways), 'kids_left': kids()}
+    rep['cyclic'] = cyclic_then_next()
+    rep['forked'] = forked_consumer(%(forkway)r)
     print(json.dumps(rep), flush=True)
 
 main()
@@ -375,6 +407,12 @@ def process_history_cases(ctx):
             if info['fd_after'] > info['fd_base']:
                 ctx.fail('descriptors-left-open', '%d streams, each ended properly, left %d descriptors open (%d before, %d after): the process cannot go on for ever'
                          % (len(ways), info['fd_after'] - info['fd_base'], info['fd_base'], info['fd_after']), case)
+            cy = info['cyclic']
+            if cy['workers_of_the_abandoned_stream'] < 1:
+                raise core.InfraError('the abandoned stream had no workers: %r' % (cy,))
+            if cy['left']:
+                ctx.fail('worker-outlives-stream', 'a stream abandoned inside a reference cycle, another parallel stream run before the collector came: '
+                         'after gc.collect() its workers %s are still there' % (cy['left'],), case)
             fk = info['forked']
             if 'error' in fk or 'left' not in fk:
                 ctx.fail('forked-consumer-fails', 'a forked child running a stream of an inherited stage: %r' % (fk,), case)
